@@ -183,6 +183,52 @@ func (e *C04) Run(c *core.Ctx, idx int) {
 			}
 			d, fi = fmt.Sprintf("short ftyp %x", data), -2
 		}
+		if idx%25 == 8 {
+			// a date value that stops short (count 16..20 instead of 20) and is the last thing in the
+			// stream: whatever a parser reads behind its end comes from an earlier call
+			big := r.Bool()
+			tag := uint16(r.Pick(0x0132, 0x0132, 0x9003, 0x9004))
+			k := r.Pick(16, 17, 17, 18, 18, 19, 20)
+			val := []byte("2020:01:02 10:30:59\x00")[:k]
+			var t []byte
+			p16 := func(v int) {
+				if big {
+					t = append(t, byte(v>>8), byte(v))
+				} else {
+					t = append(t, byte(v), byte(v>>8))
+				}
+			}
+			p32 := func(v int) {
+				if big {
+					p16(v >> 16)
+					p16(v & 0xffff)
+				} else {
+					p16(v & 0xffff)
+					p16(v >> 16)
+				}
+			}
+			if big {
+				t = append(t, "MM\x00*"...)
+			} else {
+				t = append(t, "II*\x00"...)
+			}
+			p32(8)
+			dir := func(id uint16, typ, cnt, v int) { p16(int(id)); p16(typ); p32(cnt); p32(v) }
+			if tag == 0x0132 {
+				p16(1)
+				dir(tag, 2, k, 26)
+				p32(0)
+			} else {
+				p16(1)
+				dir(0x8769, 4, 1, 26)
+				p32(0)
+				p16(1)
+				dir(tag, 2, k, 44)
+				p32(0)
+			}
+			data = append(t, val...)
+			d, fi = fmt.Sprintf("short date tag=%04x count=%d big=%v len=%d", tag, k, big, len(data)), -2
+		}
 		desc = d
 		for _, ei := range natEntries(p, fi, data) {
 			ent := p.entries[ei]
